@@ -60,7 +60,7 @@ fn fwd(op: &Op, _ctx: &dyn Context, operands: &mut dyn CoordinateSet) -> usize {
         let (sin_lon, cos_lon) = (lon - lon_0).sin_cos();
 
         // Authalic latitude, 𝜉
-        let xi = (ancillary::qs(lat.sin(), e) / qp).asin();
+        let xi = (ancillary::qs(lat.sin(), e) / qp).clamp(-1.0, 1.0).asin();
         let (sin_xi, cos_xi) = xi.sin_cos();
 
         let b = if oblique {
@@ -90,6 +90,9 @@ fn inv(op: &Op, _ctx: &dyn Context, operands: &mut dyn CoordinateSet) -> usize {
         return 0;
     };
     let Ok(d) = op.params.real("d") else { return 0 };
+    let Ok(qp) = op.params.real("qp") else {
+        return 0;
+    };
     let Ok(authalic) = op.params.fourier_coefficients("authalic") else {
         return 0;
     };
@@ -104,9 +107,6 @@ fn inv(op: &Op, _ctx: &dyn Context, operands: &mut dyn CoordinateSet) -> usize {
 
     let ellps = op.params.ellps(0);
     let a = ellps.semimajor_axis();
-    let es = ellps.eccentricity_squared();
-    let e = es.sqrt();
-
     let (sin_xi_0, cos_xi_0) = xi_0.sin_cos();
 
     let mut successes = 0_usize;
@@ -119,9 +119,10 @@ fn inv(op: &Op, _ctx: &dyn Context, operands: &mut dyn CoordinateSet) -> usize {
             let (x, y) = operands.xy(i);
             let rho = (x - x_0).hypot(y - y_0);
 
-            // The authalic latitude is a bit convoluted
-            let denom = a * a * (1.0 - ((1.0 - es) / (2.0 * e)) * ((1.0 - e) / (1.0 + e)).ln());
-            let xi = (-sign) * (1.0 - rho * rho / denom);
+            // The authalic latitude is a bit convoluted. Note that
+            // qp = 1 - ((1 - es) / (2e)) * ln((1 - e) / (1 + e)), also in the limit e = 0
+            let denom = a * a * qp;
+            let xi = (-sign) * (1.0 - rho * rho / denom).clamp(-1.0, 1.0).asin();
 
             let lon = lon_0 + (x - x_0).atan2(sign * (y - y_0));
             let lat = ellps.latitude_authalic_to_geographic(xi, &authalic);
@@ -201,15 +202,18 @@ pub fn new(parameters: &RawParameters, _ctx: &dyn Context) -> Result<Op, Error> 
     }
 
     let polar = (t - FRAC_PI_2).abs() < EPS10;
-    let north = polar && (t > 0.0);
+    let north = polar && (lat_0 > 0.0);
     let equatorial = !polar && t < EPS10;
-    let oblique = !polar && !equatorial;
-    match (polar, equatorial, north) {
-        (true, _, true) => params.boolean.insert("north_polar"),
-        (true, _, false) => params.boolean.insert("south_polar"),
-        (_, true, _) => params.boolean.insert("equatorial"),
+    // The equatorial aspect is just the general (oblique) formulation with lat_0 = 0
+    let oblique = !polar;
+    match (polar, north) {
+        (true, true) => params.boolean.insert("north_polar"),
+        (true, false) => params.boolean.insert("south_polar"),
         _ => params.boolean.insert("oblique"),
     };
+    if equatorial {
+        params.boolean.insert("equatorial");
+    }
 
     // --- Precompute some latitude invariant factors ---
 
@@ -230,8 +234,6 @@ pub fn new(parameters: &RawParameters, _ctx: &dyn Context) -> Result<Op, Error> 
     // D in the IOGP text
     let d = if oblique {
         a * (cos_phi_0 / (1.0 - es * sin_phi_0 * sin_phi_0).sqrt()) / (rq * xi_0.cos())
-    } else if equatorial {
-        rq.recip()
     } else {
         a
     };
